@@ -53,7 +53,7 @@ ASSUMPTIONS = [
 ]
 
 COEFS = (0, 3, 7, 11)
-CONTENTS = ("outl", "comp", "kern", "kernx", "mark", "mvar", "sparseg", "sparsel")
+CONTENTS = ("outl", "comp", "kern", "kernx", "mark", "mvar", "sparseg", "sparsee", "sparsel")
 OPT_OFF_CONTENTS = ("outl", "comp", "sparseg")
 
 _MASTERS = {}
@@ -420,10 +420,10 @@ def variants(naxes, dflt, midx, coef, contents=CONTENTS, maps=("none", "lin", "b
     for mapk in maps:
         for kind in kinds:
             for content in contents:
-                if content == "comp" and kind == "cff":
+                if content in ("comp", "sparsee") and kind == "cff":
                     continue
                 sp = None
-                if content in ("sparseg", "sparsel"):
+                if content in ("sparseg", "sparsee", "sparsel"):
                     sp = sparse_index(midx, dflt)
                     if sp is None:
                         continue
@@ -484,7 +484,9 @@ class Generated(Unit):
         if rot:
             rec.witness("default master is not the first source")
         if sp is not None:
-            rec.witness("sparse %s master" % ("glyph" if content == "sparseg" else "layout"))
+            rec.witness("sparse %s master" % ("glyph" if content in ("sparseg", "sparsee") else "layout"))
+            if content == "sparsee":
+                rec.witness("sparse master with empty glyphs (composite among them)")
         rec.witness("default %s" % ("at an end" if all(d in (0, 4) for d in dflt) else "in the middle" if all(d == 2 for d in dflt) else "mixed end/middle"))
 
 
@@ -495,14 +497,14 @@ COMMON_WITNESSES = (
     "kerning varies", "kerning pair present in some masters only", "mark offset varies", "MVAR metric varies",
     "sparse glyph master", "sparse layout master", "sparse master: no layout tables (shaping not compared there)",
     "IUP-optimised tuple (inferred deltas) in gvar", "optimize=False build", "default at an end", "default in the middle",
-    "default master is not the first source",
+    "default master is not the first source", "sparse master with empty glyphs (composite among them)",
 )
 
 
 class OneAxis(Generated):
     name = "generated-1axis"
     naxes = 1
-    rule = ("1 axis, 5 user positions {min,1/4,mid,3/4,max}: EVERY subset containing the default x default at {min, mid} (thorough: + max, and all four value coefficients) x map {none, lin, bent; bent2 = two knots, one on the normalised diagonal, for outl/mvar} x {ttf, cff} x 8 contents (+ optimize=False for glyph contents, + rotated source order for outl/kern/sparseg); "
+    rule = ("1 axis, 5 user positions {min,1/4,mid,3/4,max}: EVERY subset containing the default x default at {min, mid} (thorough: + max, and all four value coefficients) x map {none, lin, bent; bent2 = two knots, one on the normalised diagonal, for outl/mvar} x {ttf, cff} x 9 contents (+ optimize=False for glyph contents, + rotated source order for outl/kern/sparseg); "
             "oracle: VF at each master's user location (HarfBuzz: fvar+avar+gvar/CFF2/HVAR/GPOS/MVAR) == static master within the derived budget, default master exact, fvar/avar == designspace maps at knots and midpoints; distinct = designspace with a varying non-default master")
     required_witnesses = COMMON_WITNESSES + ("single master (no variation)",)
 
